@@ -45,7 +45,7 @@ def write_json_dump_to_file(args: Any, config_name: str) -> None:
 
 def internal_hash(input_obj: str) -> str:
     """A generic internal hash used throughout ranking procedure - let's hardcode seed here for sure"""
-    return xxhash.xxh32(input_obj, seed=20141025).hexdigest()
+    return xxhash.xxh32(input_obj.encode('utf-8') if isinstance(input_obj, str) else input_obj, seed=20141025).hexdigest()
 
 
 @dataclass
